@@ -828,6 +828,8 @@ package go9p
 //@   at unlock(conn.Unlock) requires [C07 chained] inmap(conn.reqs, tag) && conn.reqs[tag] != nil && conn.reqs[tag] != req ==> r == conn.reqs[tag] && r.flushreq == req && req.flushreq == old(req.Conn.reqs[req.Tc.Oldtag].flushreq)
 //@   at unlock(conn.Unlock) requires [C07 unchained] !(inmap(conn.reqs, tag) && conn.reqs[tag] != nil && conn.reqs[tag] != req) ==> r == nil && req.flushreq == old(req.flushreq)
 //@   at call((*SrvReq).Respond)#1 requires [C07 immediate] arg0 == req && r == nil
+// a Tflush that waits on its target is answered later by the target's Respond, which sends req.Rc as it is
+//@   at unlock(conn.Unlock) requires [C07 C03 prepacked] len(req.Rc.Buf) >= 7 ==> req.Rc.Type == 109 && len(req.Rc.Pkt) == 7 && u8(req.Rc.Pkt, 4) == 109
 //@   at call((*SrvReq).Respond)#2 requires [C07 cancel] arg0 == r && r.status & 1 != 0 && status & 10 == 0
 //@   at call(FlushOp.Flush) requires [C07 working] arg1 == r && status & 10 != 0
 //@   ghost nact int = 0
@@ -1032,6 +1034,13 @@ package go9p
 //@   ensures  [C07 C04 cleanup] old(req.status) & 4 == 0 ==> pp
 //@   ghost hasnext bool = false
 //@   at unlock(conn.Unlock) ghost hasnext := nextreq != nil
+// a request answered while others share its tag leaves the table entry (the newest of the group) alone;
+// the last one of its tag removes the entry
+//@   at unlock(conn.Unlock) requires [C08 C03 table] (nextreq != nil ==> inmap(conn.reqs, req.Tc.Tag) == old(inmap(req.Conn.reqs, req.Tc.Tag)) && conn.reqs[req.Tc.Tag] == old(req.Conn.reqs[req.Tc.Tag])) && (nextreq == nil ==> !inmap(conn.reqs, req.Tc.Tag))
+// the reply of a flushed request goes out before the Rflush of the flushes waiting on it
+//@   ghost queued bool = false
+//@   at send(conn.reqout) ghost queued := true
+//@   at call((*SrvReq).Respond) requires [C07 C03 replyfirst] status & 1 != 0 || queued
 //@   ensures  [C08 C07 successor] old(req.status) & 4 == 0 && hasnext ==> started
 //@   assigns  everything
 
@@ -1707,7 +1716,7 @@ package go9p
 //@ func (*SrvFid).DecRef(fid)
 //@   opt lockcheck
 //@   property C04 C06 C11 C19
-//@   requires fid != nil && !held(fid) && fid.Fconn != nil && !held(fid.Fconn) && fid.Fconn.Srv != nil && fid.refcount > -9223372036854775807
+//@   requires fid != nil && nolocks() && fid.Fconn != nil && fid.Fconn.Srv != nil && fid.refcount > -9223372036854775807
 //@   ghost ndestroy int = 0
 //@   at call(SrvFidOps.FidDestroy) requires [last] arg1 == fid && old(fid.refcount) <= 1 && !inmap(fid.Fconn.fidpool, fid.fid) && ndestroy == 0
 //@   at call(SrvFidOps.FidDestroy) ghost ndestroy := ndestroy + 1
@@ -1764,7 +1773,7 @@ package go9p
 
 //@ func (*Srv).clunkPost(srv, req)
 //@   property C04 C06
-//@   requires req != nil && (req.Fid != nil ==> !held(req.Fid) && req.Fid.Fconn != nil && !held(req.Fid.Fconn) && req.Fid.Fconn.Srv != nil && req.Fid.refcount > -9223372036854775807)
+//@   requires req != nil && nolocks() && (req.Fid != nil ==> req.Fid.Fconn != nil && req.Fid.Fconn.Srv != nil && req.Fid.refcount > -9223372036854775807)
 //@   ghost ndec int = 0
 //@   at call((*SrvFid).DecRef) ghost ndec := ndec + 1
 //@   at call((*SrvFid).DecRef) requires [fid] arg0 == old(req.Fid)
@@ -1773,7 +1782,7 @@ package go9p
 
 //@ func (*Srv).removePost(srv, req)
 //@   property C04 C06
-//@   requires req != nil && (req.Fid != nil ==> !held(req.Fid) && req.Fid.Fconn != nil && !held(req.Fid.Fconn) && req.Fid.Fconn.Srv != nil && req.Fid.refcount > -9223372036854775807)
+//@   requires req != nil && nolocks() && (req.Fid != nil ==> req.Fid.Fconn != nil && req.Fid.Fconn.Srv != nil && req.Fid.refcount > -9223372036854775807)
 //@   ghost ndec int = 0
 //@   at call((*SrvFid).DecRef) ghost ndec := ndec + 1
 //@   at call((*SrvFid).DecRef) requires [fid] arg0 == old(req.Fid)
@@ -1817,6 +1826,9 @@ package go9p
 //@   ghost nfound int = 0
 //@   at next(*)#1 after nfound := ite(ret0, nfound + 1, nfound)
 //@   at unlock(conn.Unlock) requires [C11 allfids] len(fids) == nfound
+//@   ghost ndest int = 0
+//@   at call(SrvFidOps.FidDestroy) ghost ndest := ndest + 1
+//@   ensures  [C11 C04 alldestroyed] implements(old(conn.Srv.ops), "SrvFidOps") ==> ndest == nfound
 //@   ensures  implements(old(conn.Srv.ops), "ConnOps") ==> nclosed == 1
 //@   ensures  nclosed <= 1
 //@   loop 1
@@ -1824,7 +1836,7 @@ package go9p
 //@     invariant forall k int :: 0 <= k && k < len(fids) ==> fids[k] != nil
 //@     invariant len(fids) == nfound
 //@   loop 2
-//@     invariant conn != nil && nolocks() && nclosed <= 1 && (implements(old(conn.Srv.ops), "ConnOps") ==> nclosed == 1) && -1 <= rangeindex && rangeindex < len(fids)
+//@     invariant conn != nil && nolocks() && nclosed <= 1 && (implements(old(conn.Srv.ops), "ConnOps") ==> nclosed == 1) && -1 <= rangeindex && rangeindex < len(fids) && ndest == rangeindex + 1 && len(fids) == nfound
 //@     invariant forall k int :: 0 <= k && k < len(fids) ==> fids[k] != nil
 
 //@ func (*Srv).Start(srv, ops) (ok)
@@ -1888,12 +1900,28 @@ package go9p
 //@   loop 2
 //@     invariant clnt != nil && clnt.conn != nil && nolocks()
 
+// requests made through a Tag carry the Tag's tag and are not taken from (nor given back to) the client's pool
+//@ func (*Tag).reqAlloc(tag) (r)
+//@   property C09 C08
+//@   requires tag != nil && tag.clnt != nil
+//@   at call((*Clnt).ReqAlloc) requires [C09 ownpool] false
+//@   ensures  [C09 C08 sharedtag] r != nil && fresh(r) && r.tag == tag.tag && r.Clnt == tag.clnt
+
+//@ func (*Tag).ReqFree(tag, r)
+//@   property C09
+//@   requires tag != nil && tag.clnt != nil && r != nil
+//@   at send(*) requires [C09 notpooled] false
+//@   at select(*) requires [C09 notpooled] false
+//@   at call((*Pool).Put) requires [C09 notpooled] false
+
 //@ func (*Clnt).ReqFree(clnt, req)
 //@   property C09 C06
 //@   requires clnt != nil && req != nil && clnt.tagpool != nil && clnt.tagpool.low <= req.tag && req.tag <= clnt.tagpool.high
 //@   ghost nput int = 0
 //@   ghost cached bool = false
 //@   at select(*) after cached := ret0 == 0
+//@   at call((*Pool).Put) requires [C10 C09 clean] req.next == nil && req.prev == nil && req.Tc == nil && req.Rc == nil && req.Err == nil && req.Done == nil
+//@   ensures  [C10 C09 clean] req.next == nil && req.prev == nil && req.Tc == nil && req.Rc == nil && req.Err == nil && req.Done == nil
 //@   at call((*Pool).Put) ghost nput := nput + 1
 //@   at call((*Pool).Put) requires [C09 tag] arg1 == old(req.tag)
 //@   ensures  [C09 recycled] cached || nput == 1
